@@ -5,23 +5,23 @@ VERIF = os.path.dirname(os.path.dirname(os.path.abspath(__file__)))
 TECH = 'CBMC code contracts on C rendered mechanically from the real C++ (bx2c): per-function assume/guarantee obligations, label-machine invariants for cycles'
 CLAIMED = {
  'C01': ('proof', 'For every background routine that exists in the reference and every emission kernel: the C++ routine simulates the reference routine (rendered from the .for on each run) cut point by cut point: same successor, same deviates consumed, same emission calls with equal arguments, related variables equal; for all deviates and rejection-loop trajectories.', '3 C01',
-         'beta kernels, the leaf particle(), tgold/fermi, genbbsub background chaining and the angular-correlation blocks of Co60/Bi207 are not yet related (listed per run); f77c and the simulation meta-lemma are trusted'),
- 'C02': ('proof', 'Same simulation proof for the 42 daughter cascades (*low) and the alpha-chain routines; DBD level/Q table of genbbsub related to GENBBsub by the C06 obligations.', '3 C02',
-         'bb(), fe*_mods, dshelp*, gauss/dgmlt (reported event ratio), Ru100low/Se76low/Sm150low correlation blocks not yet related'),
+         'also related: the leaf particle(), the beta samplers and their shape functions, fermi, tgold, the plog69 table; not related: the angular-correlation blocks of Co60/Bi207 (listed per run), genbbsub background chaining (C05 obligations instead); f77c and the simulation meta-lemma are trusted; libm/GSL special functions are uninterpreted on both sides'),
+ 'C02': ('proof', 'Same simulation proof for decay0_bb against bb (one query per cut point and legacy mode), the 25 fe*_mod integrands, dshelp1/2, the 42 daughter cascades (*low) and the alpha-chain routines; DBD level/Q table of genbbsub related to GENBBsub by the C06 obligations.', '3 C02',
+         'gauss (GSL QNG vs CERNLIB D103) and dgmlt1/2 are abstract effects on both sides, so the numerical value of the reported event ratio is NOT decided; NaN guard of decay0_bb assumed silent; Ru100low/Se76low/Sm150low correlation blocks not related (listed per run)'),
  'C05': ('proof', 'For each of the 69 published background names: genbbsub initialises, and the generate phase calls exactly the documented scheme routine(s) once, in order, with the daughter delayed by its decay time (ghost call log, all deviates); README lists, .lis files and genbbsub name tests compared as sets.', '3 C05',
          'scheme routines abstracted to "log id + append particles"; bb_utils.cc list parser and the CLI are not reachable'),
  'C06': ('proof', 'For each of the 51 isotopes (and unknown names) and ALL int levels and modes: genbbsub init accepts exactly when the reference GENBBsub (rendered per name by f77c) accepts and sets Qbb/Zdbb/Adbb/EK/levelE/itrans02 identically; level table cross-checked with README Appendix 1; 4-beta, sign and mode-range rules asserted directly.', '3 C06',
          'gA routing, energy-window validation and label<->mode bijection (decay0_generator.cc, bb_utils.cc) are STL/iostream code: not covered'),
  'C16': ('proof', 'Ground obligations on the real initialisers of the 6- and 8-point Gauss-Legendre rules of dgmlt1/dgmlt2: all moments up to degree 2n-1 to 1e-13, node antisymmetry, weight symmetry and positivity (bit-precise, no symbolic input).', '3 C16',
          'only the tabulated rules; exactness on arbitrary intervals is the affine change of variable (assumed); QNG, Simpson, golden section, divided differences, rotate_zyz, Fermi function are not decided'),
- 'C03': ('proof', 'Every path of every *low cascade releases the tabulated level energy (nominal accounting defined by the L1/L2 emission contracts) within 3 keV: one CBMC query per routine over all deviates and all tabulated levels.', '3 C03',
-         'nominal vs booked energy gap bounded per call by the L2 lemmas; bb/genbbsub Q-value closure and the window facts are not yet under contract (listed in evidence.not_covered)'),
+ 'C03': ('proof', 'Every path of every *low cascade releases the tabulated level energy (nominal accounting defined by the L1/L2 emission contracts) within 3 keV: one CBMC query per routine over all deviates and all tabulated levels. decay0_bb under contract (contracts/bb.contract): for every legacy mode the emitted energies are computed from the budget e0 = Q - Elevel [- 4me | - EK - 2me | - 2EK] and the window [ebb1, ebb2] in the shape that the IEEE lemmas W0/W2/W9/W10/W11/W20 turn into the budget/window inequality.', '3 C03',
+         'nominal vs booked energy gap bounded per call by the L2 lemmas; lemmas W2, W20 thorough-tier only (assumed otherwise); momentum -> kinetic energy is a real-arithmetic lemma (assumed); toallevents >= 1 / monotone in the window is NOT claimed (property of the numerical integrators)'),
  'C04': ('proof', 'For all deviates: every call-site precondition of every emission primitive holds in all 123 L3 routines (energies >= 0 and above thresholds, finite times), >= 1 and <= 60 particles per routine, decay time >= creation time, no exception, every cycle consumes a deviate.', '3 C04',
          'time order rests on the leaf contract; bounded number of deviates is almost-sure only and not claimed; genbbsub level facts pending'),
  'C07': ('proof', 'Hidden state and frame: DFCC assigns obligations on the L0-L2 kernels (nothing but the event, out-parameters and ghost state is written); for every isotope and all int levels/modes, genbbsub initialisation of two arbitrary different parameter blocks ends in the same state (no field left over from an earlier configuration is read); AST frame scan of every rendered function (assignment targets, write-once statics).', '3 C07',
          'pointer/reference into the particle vector across an emission is claimed under C08; other instances, reset/re-init, shoot() are porcelain (not covered); the AST scan is a static fact, not a CBMC obligation'),
- 'C08': ('proof', 'CBMC bounds/pointer/overflow/conversion/division checks on every rendered L3 routine body for all deviates, with std::vector modelled as "any push_back may reallocate" so that a pointer kept across an emission is a failed obligation.', '3 C08',
-         'uninitialised reads not covered; kernels/bb/genbbsub bodies pending'),
+ 'C08': ('proof', 'CBMC bounds/pointer/overflow/conversion/division checks on every rendered L3 routine body for all deviates, with std::vector modelled as "any push_back may reallocate" so that a pointer kept across an emission is a failed obligation; decay0_bb under contract: every spthe1/spthe2 index inside the 4300-entry tables and every double->int conversion defined, for every mode, window and deviate sequence (loop invariants, no unwinding).', '3 C08',
+         'uninitialised reads not covered; decay0_bb: deviate*x abstracted to [0,x], nonlinear products uninterpreted (sound over-approximations); genbbsub body and the quadrature routines (dgmlt1/2, divdif) not under a safety contract'),
 }
 NA = {
  '_C01': 'not built yet: relational proof against the Fortran reference (DESIGN 2.5) is the next build step',
